@@ -509,7 +509,13 @@ pub fn gen_spec(r: &mut Rng) -> SpriteSpec {
             s.legacy = Some((ty, packets));
         } else {
             let n = small(r, 16, 256) as usize;
-            let first = if r.chance(4, 5) { 0 } else { r.below(60) as u32 };
+            let first = match r.below(20) {
+                0..=15 => 0,
+                16 | 17 => r.below(60) as u32,
+                // ids reaching beyond 255: legal (32-bit ids), unusable by 8-bit pixels
+                18 => 200 + r.below(56) as u32,
+                _ => 255u32.saturating_sub(n as u32 / 2),
+            };
             let entries = (0..n)
                 .map(|_| {
                     let a = if r.chance(3, 4) { 255 } else { r.byte() };
@@ -1961,10 +1967,14 @@ pub fn apply_bug(s: &mut SpriteSpec, bug: &str, r: &mut Rng, scale: usize) -> St
         }
         "tilemap-bits" => {
             let i = ensure_tilemap(s, r);
-            if let CelBody::Tilemap { bits, .. } = &mut s.cels[i].body {
-                *bits = *r.pick(&[8u16, 16, 0, 64]);
+            let empty = r.chance(1, 3);
+            if let CelBody::Tilemap { bits, tiles, .. } = &mut s.cels[i].body {
+                *bits = *r.pick(&[8u16, 16, 0, 0, 64]);
+                if empty {
+                    tiles.clear();
+                }
             }
-            "tilemap bits per tile != 32".into()
+            format!("tilemap bits per tile != 32{}", if empty { ", with an empty tile payload" } else { "" })
         }
         "frames-more-than-present" => {
             let n = s.durations.len() as u16;
